@@ -336,6 +336,41 @@ fn honest_pair_case<P: G>(cfg: Cfg) -> Box<dyn Case> {
                 }
             }
         }
+        // the same pair with both statements over clones of ONE parameter object (a wallet builds its parameters once): the
+        // single-commitment statement over the pair's parameters
+        if cfg.m > 1 {
+            let mut sw = Wit::default_for(&comp_cfg);
+            sw.blindings[0][0] = blinding(78, 0);
+            let shared_cs = commitments_for(built.params.pc_gens(), &sw);
+            if let Ok(cs) = shared_cs {
+                if let Ok(st1) = P::statement(built.params.clone(), cs.clone(), sw.promises.clone(), None) {
+                    let w1 = match witness_for(&sw) {
+                        Ok(w) => w,
+                        Err(_) => return res,
+                    };
+                    let mut t = contexts()[2].transcript();
+                    if let Ok(Ok(p1)) = catch(|| P::prove(&mut t, &st1, &w1, &mut HRng::chacha(92))) {
+                        for first in [true, false] {
+                            let (sts, proofs, ctxs) = if first {
+                                (vec![built.statement.clone(), st1.clone()], vec![P::proof_clone(&proof), P::proof_clone(&p1)], vec![CTX_A, contexts()[2]])
+                            } else {
+                                (vec![st1.clone(), built.statement.clone()], vec![P::proof_clone(&p1), P::proof_clone(&proof)], vec![contexts()[2], CTX_A])
+                            };
+                            let mut ts: Vec<merlin::Transcript> = ctxs.iter().map(|c| c.transcript()).collect();
+                            let obs = verify_observed(&sts, &proofs, &mut ts, tari_bulletproofs_plus::range_proof::VerifyAction::VerifyOnly);
+                            res.executions += 1;
+                            if !obs.is_ok() {
+                                res.outcome = "honest-rejected".into();
+                                res.violate(
+                                    format!("shared-parameters/first={}", first),
+                                    format!("two honest proofs (aggregation {} and 1) over clones of one parameter object verified together are not accepted: {}", cfg.m, obs.describe()),
+                                );
+                            }
+                        }
+                    }
+                }
+            }
+        }
         res
     })
 }
